@@ -73,6 +73,10 @@ def _run_section(idx):
     from engine import contexts
     rep = Report("tmp")
     section(rep, name, lambda: fn(rep))
+    from engine.pyvc import executed_functions
+    for f in executed_functions():
+        if not any(g.get("name") == f["name"] for g in rep.functions):
+            rep.functions.append(f)
     for ob in rep.obligations:
         ob.smt2 = ob.smt2[:800]
         try:
